@@ -29,8 +29,112 @@ def cfg(spec, f, l, n=0, devs=(), tail=""):
     return CFG % dict(spec=spec, f=f, l=l, n=n, devs=", ".join('"%s"' % d for d in devs), tail=tail)
 
 
+KCFG = """SPECIFICATION %(spec)s
+CONSTANTS
+  Algos = {%(algos)s}
+  MaxOps = %(ops)d
+  Devs = {%(devs)s}
+  Gen = %(gen)s
+%(tail)s
+"""
+KDEVS = ["StaleRecordTail", "SubdomainD", "KeepOldRecord"]
+
+
+def kcfg(spec, ops, algos=("rsa2048", "ed25519"), devs=(), gen=False, tail=""):
+    return KCFG % dict(spec=spec, ops=ops, algos=", ".join('"%s"' % a for a in algos),
+                       devs=", ".join('"%s"' % d for d in devs), gen="TRUE" if gen else "FALSE", tail=tail)
+
+
+def key_shape(b, fine):
+    """stratum of a key history (features computed by the model, see Log in DkimKeys.tla)"""
+    rots, signs = set(), set()
+    for st in b["hist"]:
+        if st["e"] == "Start":
+            rots.update(st["rot"])
+        elif st["e"] == "Sign":
+            signs.add((st["sender"] if fine else "", st["signed"], st["g"] > 1))
+    return (tuple(b["cfg"]["doms"]), b["cfg"]["sub"], tuple(sorted(rots)), tuple(sorted(signs)))
+
+
+def run_keys(ctx, replay_row=None):
+    """key side of C08: DkimKeys.tla (key/record files over starts, rotation, signing domains)"""
+    thorough = ctx.tier == "thorough"
+    if replay_row is None:
+        algos = ("rsa2048", "ed25519", "rsa4096") if thorough else ("rsa2048", "ed25519")
+        r = ctx.tlc_expect_ok("DkimKeys", None, name="keys-mc", workers=8, timeout=1800,
+                              cfg_text=kcfg("Spec", 6 if thorough else 5, algos=algos,
+                                            tail="INVARIANTS SignedVerifies LoadedIsPublished TypeOK\n"))
+        ctx.cov["states"] = ctx.cov.get("states", 0) + r["distinct"]
+        ctx.cov["transitions"] = ctx.cov.get("transitions", 0) + r["generated"]
+        ctx.log("TLC exhaustive (keys): %d states, %.1fs" % (r["distinct"], r["wall"]))
+        for dev in KDEVS:
+            ra = ctx.tlc("DkimKeys", None, name="keys-asis-" + dev, workers=2, timeout=300,
+                         cfg_text=kcfg("Spec", 4, devs=[dev],
+                                       tail="INVARIANTS SignedVerifies LoadedIsPublished\n"))
+            if ra["invariant"] not in ("SignedVerifies", "LoadedIsPublished"):
+                raise vlib.Infra("key deviation %s is not caught by the model" % dev)
+        ctx.cov["deviations_caught_by_model"] = ctx.cov.get("deviations_caught_by_model", []) + KDEVS
+        g = ctx.tlc("DkimKeys", None, name="keys-gen", workers=1, timeout=900,
+                    cfg_text=kcfg("GenSpec", 5, gen=True))
+        behs = [val for tag, val in g["printed"] if tag == "BEH"]
+        if not g["ok"] or not behs:
+            raise vlib.Infra("key history generation failed: %s %s" % (g["invariant"], g["error"]))
+        import random
+        rng = random.Random(ctx.seed * 7919 + 8)
+        strata = {}
+        for b in behs:
+            strata.setdefault(key_shape(b, thorough), []).append(b)
+        per = 1
+        rows = []
+        for k in sorted(strata, key=repr):
+            for b in vlib.sample(rng, strata[k], per):
+                rows.append(b)
+        cap = 1500 if thorough else 64
+        if len(rows) > cap:      # keep every stratum with a rotation, fill up with the rest
+            rot = [b for b in rows if any(st["e"] == "Start" and st["rot"] for st in b["hist"])]
+            rest = [b for b in rows if b not in rot]
+            rows = vlib.sample(rng, rot, cap * 3 // 4)
+            rows += vlib.sample(rng, rest, cap - len(rows))
+        rows = [dict(b, id=900000 + i + 1) for i, b in enumerate(rows)]
+        ctx.cov["key_histories_generated"] = len(behs)
+        ctx.cov["key_history_strata"] = len(strata)
+    else:
+        rows = [dict(replay_row, id=900001)]
+    ctx.log("%d key histories" % len(rows))
+    binary = ctx.build_harness("dkimcheck")
+    events = ctx.run_shards(binary, rows, test="TestKeys", name="keys", shards=8)
+    if any(e["e"] == "Timeout" for e in events):
+        raise vlib.Infra("harness time-out waiting for the next hop (not a statement about maddy)")
+    verdicts, by_t = ctx.validate("DkimKeysTrace", None, events, name="keys-trace",
+                                  cfg_text=kcfg("TSpec", 1000, algos=("rsa2048", "ed25519", "rsa4096"),
+                                                tail="POSTCONDITION Post\nCHECK_DEADLOCK FALSE\n"))
+    by_id = {x["id"]: x for x in rows}
+    ok = drift = 0
+    for t in sorted(verdicts):
+        v = verdicts[t][0]
+        if v["viol"]:
+            notes = [e.get("note", "") for e in by_t[t] if e["e"] == "Sign" and e["signed"] and not e["verified"]]
+            for pn in v["viol"]:
+                ctx.cov.setdefault("violated_predicates", {}).setdefault(pn, 0)
+                ctx.cov["violated_predicates"][pn] += 1
+            ctx.violation("DKIM keys " + ",".join(sorted(v["viol"])) + ": " + (notes[0] if notes else ""),
+                          {"property": "C08", "keys": {k: by_id[t][k] for k in ("cfg", "hist")}, "observed": by_t[t],
+                           "how": "bin/check C08 --replay <this file>"})
+        elif v["drift"]:
+            drift += 1
+            print("DRIFT property=C08 key-history=%d first-unexplained-seq=%d" % (t, v["driftAt"]))
+        else:
+            ok += 1
+    ctx.cov["key_histories_validated"] = ok
+    ctx.cov["key_histories_drift"] = drift
+    return len(rows), ok
+
+
 def run(ctx, replay):
     thorough = ctx.tier == "thorough"
+    if replay and "keys" in json.load(open(replay)):
+        run_keys(ctx, json.load(open(replay))["keys"])
+        return
     if not replay:
         r = ctx.tlc_expect_ok("MsgShape", None, name="mc", workers=8, timeout=1800,
                               cfg_text=cfg("Spec", 3 if thorough else 2, 2, tail="INVARIANT RowOK\n"))
@@ -97,13 +201,18 @@ def run(ctx, replay):
             print("DRIFT property=C08 row=%d bytes changed on the way although the signature verifies" % v["t"])
         else:
             ok += 1
-    ctx.cov["traces_validated_against_impl"] = ok
+    nk = kok = 0
+    if not replay:
+        nk, kok = run_keys(ctx)
+    ctx.cov["traces_validated_against_impl"] = ok + kok
     ctx.cov["drift_traces"] = drift
-    ctx.cov["evaluations"] = len(rows)
+    ctx.cov["evaluations"] = len(rows) + nk
     ctx.cov["distinct_nontrivial"] = sum(1 for x in rows if len(x["in"]["hdr"]) + len(x["in"]["body"]) >= 2)
     ctx.cov["rule"] = ("row = message shape drawn by TLC (RandomElement, -seed) from the shape space of MsgShape.tla, "
                        "de-duplicated; non-trivial = at least two header/body atoms")
-    ctx.cov["violated_predicates"] = preds
+    for k, v in preds.items():
+        ctx.cov.setdefault("violated_predicates", {})[k] = ctx.cov.get("violated_predicates", {}).get(k, 0) + v
+    ctx.cov.setdefault("violated_predicates", {})
     ctx.cov["samples"] = [by_t[t] for t in sorted(by_t)[:3]]
     ctx.assumptions += [
         "bounded shape space of feature classes, not all RFC 5322 messages; concretisation table in the harness",
